@@ -4,6 +4,8 @@ CONSTANTS Cbs = {0}
   SlotSize = 56
   Gap = 1048576
   Sigs = {"i"}
+  OnErrs = {TRUE, FALSE}
+  MaxDepth = 0
   Cap = 0
   Variant = "faithful"
 CHECK_DEADLOCK FALSE
